@@ -107,17 +107,23 @@ def run(ctx):
             continue
         R = Resolver(b)
         ok = False
-        for i, j, st in b.stmts():
-            if st['k'] == 'assign' and st['place']['local'] == 0 and not st['place']['proj']:
-                v = R.rvalue(st['rv'], i, j)
-                if v[0] == 'agg' and v[1][2] == 'Ok':
-                    for l in literals(b, R, i):
-                        if l[0] == 'true' and l[1][0] == 'bin' and l[1][1] == op:
-                            a, c = l[1][2], l[1][3]
-                            if op == 'Eq' and {fmt(a), fmt(c)} == {'(self as Flat).in_dim', 'dim'}:
-                                ok = True
-                            if op == 'Lt' and fmt(a) == 'idx' and fmt(c) == '(self as Flat).in_dim':
-                                ok = True
+        from ..mir import value_table
+        oks = [(v, lits) for v, lits, _bb in value_table(b, R, 0) if v[0] == 'agg' and isinstance(v[1], tuple) and v[1][2] == 'Ok']
+        errs = [(v, lits) for v, lits, _bb in value_table(b, R, 0) if v[0] == 'agg' and isinstance(v[1], tuple) and v[1][2] == 'Err']
+        def tested(lits, op_):
+            for o, a, c in prune.cmp_facts(lits):
+                if o == op_ == 'Eq' and {fmt(a), fmt(c)} == {'(self as Flat).in_dim', 'dim'}:
+                    return True
+                if o == op_ == 'Ne' and {fmt(a), fmt(c)} == {'(self as Flat).in_dim', 'dim'}:
+                    return True
+                if o == op_ == 'Lt' and fmt(a) == 'idx' and fmt(c) == '(self as Flat).in_dim':
+                    return True
+                if o == op_ == 'Ge' and fmt(a) == 'idx' and fmt(c) == '(self as Flat).in_dim':
+                    return True
+            return False
+        neg = {'Eq': 'Ne', 'Lt': 'Ge'}[op]
+        # Ok exactly under the test, Err exactly under its negation
+        ok = bool(oks) and all(tested(l, op) for _, l in oks) and bool(errs) and all(tested(l, neg) for _, l in errs)
         (ctx.ok if ok else ctx.bad)('C18.R1', q, 'Ok iff ' + what if ok else '%s does not test %s' % (q, what), b.span)
     read_layers(ctx, F)
     extract_range(ctx, F)
@@ -148,7 +154,15 @@ def extract_range(ctx, F):
     else:
         v = pushes[0].args[1]
         item = [x for x in walk(v) if is_call(x, 'Iterator::next') and is_call(x[2][0], 'Iterator::take')]
-        if not (v[0] == 'agg' and v[1] == 'tuple' and item and v[2][0] == ('field', item[0], '0') and v[2][1] == ('field', item[0], '1')):
+        OPS = ('field', ('param', 'self'), 'operators')
+        RNG = ('agg', ('adt', 'Range', 'Range', ('start', 'end')), (('param', 'start'), ('param', 'end')))
+        sl_item = [x for x in walk(v) if is_call(x, 'Iterator::next') and is_call(x[2][0], 'Index::index') and x[2][0][2][0] == OPS and s(x[2][0][2][1]) == RNG]
+        if sl_item and v[0] == 'agg' and v[1] == 'tuple' and v[2][0] == ('field', sl_item[0], '0') and v[2][1] == ('field', sl_item[0], '1'):
+            # the sub-slice self.operators[start..end], swept in order
+            it = sl_item[0]
+            if not (len(ws) == 1 and s(ws[0].value) == s(('field', it, '1'))):
+                problems.append('current_shape of the extracted architecture is not the shape recorded with the last copied layer')
+        elif not (v[0] == 'agg' and v[1] == 'tuple' and item and v[2][0] == ('field', item[0], '0') and v[2][1] == ('field', item[0], '1')):
             problems.append('a copied entry is not the (layer, shape) pair of the source entry')
         else:
             it = item[0]
@@ -171,10 +185,18 @@ def extract_range(ctx, F):
             for a in e[1][2]:
                 if a[0] == 'agg' and a[1] == 'tuple':
                     alts.append(a[2][1])
+        elif e[0] == 'phi':
+            alts = list(e[2])
         has_self = any(a == ('field', ('param', 'self'), 'input_shape') for a in alts)
         has_prev = False
         for a in alts:
-            if a[0] == 'field' and a[2] == '1' and any(is_call(x, 'Iterator::skip') for x in walk(a)):
+            def start_minus_1(k):
+                k = k[1] if (k[0] == 'field' and k[2] == '0') else k
+                return k[0] == 'bin' and k[1].startswith('Sub') and k[2] == ('param', 'start') and k[3] == ('const', 1)
+            # the entry before `start`, looked up directly: operators.get(start - 1) / operators[start - 1]
+            if a[0] == 'field' and a[2] == '1' and any(is_call(x, '[T]::get', 'Vec::get', 'Index::index') and x[2][0] == ('field', ('param', 'self'), 'operators') and start_minus_1(x[2][1]) for x in walk(a)):
+                has_prev = True
+            elif a[0] == 'field' and a[2] == '1' and any(is_call(x, 'Iterator::skip') for x in walk(a)):
                 sk = [x for x in walk(a) if is_call(x, 'Iterator::skip')][0]
                 k = sk[2][1]
                 k = k[1] if (k[0] == 'field' and k[2] == '0') else k
